@@ -139,6 +139,9 @@ package zh
 //@   loop 1 decreases len(l.Source) - l.cursor
 //@   loop 1 step [keeps-literal] len(literal) >= prev(len(literal)) && (forall i int :: 0 <= i && i < prev(len(literal)) ==> literal[i] == prev(literal[i]))
 //@   loop 1 step [verbatim] ch != BackTick && ch != syntax.RuneCR && ch != syntax.RuneLF ==> len(literal) == prev(len(literal)) + 1 && literal[prev(len(literal))] == ch && ch == charAt(l, l.cursor) && l.cursor == prev(l.cursor) + 1
+//@   loop 1 step [line-breaks-verbatim] (ch == syntax.RuneCR || ch == syntax.RuneLF) ==> literal[prev(len(literal))] == ch &&
+//@             (breakLen(ch, prev(charAt(l, l.cursor + 2))) == 2 ? len(literal) == prev(len(literal)) + 2 && literal[prev(len(literal)) + 1] == prev(charAt(l, l.cursor + 2)) && l.cursor == prev(l.cursor) + 2
+//@                                                              : len(literal) == prev(len(literal)) + 1 && l.cursor == prev(l.cursor) + 1)
 //@   loop 1 step [depth] quoteNum == prev(quoteNum) + (ch == sch ? 1 : 0) - (ch == closingQuote(sch) ? 1 : 0)
 
 // ---- NextToken (C04 dispatch, C05 progress and error positions) ----
